@@ -216,6 +216,13 @@ def run(cx):
                         ds = pf.defs().get(l, [])
                         if len(ds) == 1 and ds[0][2] == 'assign' and ds[0][3][0] == 'ref' and isinstance(ds[0][3][1], int):
                             vloc = ds[0][3][1]
+                            # (a by-value parameter of an expanded helper is a copy of the caller's variable)
+                            for _ in range(3):
+                                d2 = pf.defs().get(vloc, [])
+                                if (len(d2) == 1 and d2[0][2] == 'assign' and d2[0][3][0] == 'use' and d2[0][3][1][0] in ('c', 'm') and isinstance(d2[0][3][1][1], int)):
+                                    vloc = d2[0][3][1][1]
+                                else:
+                                    break
         c3 = cx.fn('C01.G1', P + 'rr::domain::name::read_inner::{closure@map#0}')
         if c3:
             r = cx.returns(c3, r'.')
@@ -230,7 +237,7 @@ def run(cx):
                 if d[2] == 'assign' and shorten(f.term_rvalue(d[3], 0)).startswith('BinDecoder::index('):
                     redefs.add(d[0])
             mk = [Site(f, bi, si, 'closure', 'closure#4') for bi, b in enumerate(f.blocks) for si, st in enumerate(b['s'])
-                  if st[0] == '=' and st[2][0] == 'closure' and core.strip_generics(st[2][1]).endswith('read_inner::{closure@verify_unwrap#1}')]
+                  if st[0] == '=' and st[2][0] == 'closure' and c4 is not None and core.strip_generics(st[2][1]) == c4.path]
             cx._number(mk)
             cx.check('C01.G1', len(mk) == 1 and len(redefs) >= 2, f.path, 'sites', 'bound-definitions', f'closure sites {len(mk)}, index() definitions of the bound {len(redefs)}')
             cx.must_pass('C01.G1', f, mk, via_blocks=redefs, start_blocks=[f.succs(cl[0].bb)[0]], what='bound-re-established-from-new-decoder-after-each-hop')
